@@ -515,6 +515,6 @@ def run_decoy(world, namespace=None):
     ev = Evaluator(model, namespace) if namespace is not None \
         else Evaluator(model)
     for a in order:
-        st = Stepper(max_steps=300_000, max_depth=900)
+        st = Stepper(max_steps=300_000, max_depth=900, max_msg=1_000_000)
         with st:
             outcome_of(ev.evaluate, a)
